@@ -48,3 +48,125 @@ pub fn rt(paused: bool) -> tokio::runtime::Runtime {
     }
     b.build().expect("runtime")
 }
+
+/// MemNet world building shared by the network checks (C01, C03, C04, C20 …)
+pub mod net {
+    use memnet::*;
+    use std::collections::HashMap;
+    use std::net::SocketAddr;
+    use std::sync::Arc;
+    use std::time::Duration;
+    use vkit::Rng;
+
+    #[derive(Clone, Copy, Debug, PartialEq, Eq, Hash)]
+    pub enum Topo {
+        FullMesh,
+        Ring,
+        Line,
+        Star,
+        TwoClusters,
+        Random,
+    }
+    pub const TOPOS: [Topo; 6] = [Topo::FullMesh, Topo::Ring, Topo::Line, Topo::Star, Topo::TwoClusters, Topo::Random];
+
+    pub fn edges(t: Topo, n: usize, rng: &mut Rng) -> Vec<(usize, usize)> {
+        let mut e = Vec::new();
+        match t {
+            Topo::FullMesh => {
+                for i in 0..n {
+                    for j in (i + 1)..n {
+                        e.push((i, j));
+                    }
+                }
+            }
+            Topo::Ring => {
+                for i in 0..n {
+                    e.push((i, (i + 1) % n));
+                }
+            }
+            Topo::Line => {
+                for i in 0..n.saturating_sub(1) {
+                    e.push((i, i + 1));
+                }
+            }
+            Topo::Star => {
+                for i in 1..n {
+                    e.push((i, 0));
+                }
+            }
+            Topo::TwoClusters => {
+                let h = n / 2;
+                for i in 0..h {
+                    for j in (i + 1)..h {
+                        e.push((i, j));
+                    }
+                }
+                for i in h..n {
+                    for j in (i + 1)..n {
+                        e.push((i, j));
+                    }
+                }
+                if h > 0 && h < n {
+                    e.push((0, h));
+                }
+            }
+            Topo::Random => {
+                // connected: random spanning tree plus extra edges
+                for i in 1..n {
+                    e.push((i, rng.usize_below(i)));
+                }
+                for _ in 0..rng.urange(0, n) {
+                    let (a, b) = (rng.usize_below(n), rng.usize_below(n));
+                    if a != b {
+                        e.push((a, b));
+                    }
+                }
+            }
+        }
+        e.retain(|(a, b)| a != b);
+        e
+    }
+
+    pub struct World {
+        pub hub: Arc<Hub>,
+        pub nodes: Vec<SimNode>,
+        /// every spelling of an id (transport id, hex dht key, app id) -> node index
+        pub spell: HashMap<String, usize>,
+        pub by_pos: HashMap<[u8; 32], usize>,
+        pub by_addr: HashMap<SocketAddr, usize>,
+    }
+
+    impl World {
+        pub async fn build(rng: &mut Rng, n: usize, topo: Topo, cfg: &NodeCfg) -> Result<World, String> {
+            let hub = Hub::new(rng.next_u64());
+            let mut nodes = Vec::new();
+            for i in 0..n {
+                let tid = rng.arr32();
+                let node = spawn_node(&hub, tid, sim_addr(i), cfg).await.map_err(|e| e.to_string())?;
+                nodes.push(node);
+            }
+            for (a, b) in edges(topo, n, rng) {
+                let _ = nodes[a].mgr.connect_to_peer(&nodes[b].addr.to_string()).await;
+            }
+            settle(Duration::from_millis(20)).await;
+            let mut w = World { hub, nodes, spell: HashMap::new(), by_pos: HashMap::new(), by_addr: HashMap::new() };
+            w.reindex();
+            Ok(w)
+        }
+        pub fn reindex(&mut self) {
+            for (i, e) in self.nodes.iter().enumerate() {
+                self.spell.insert(e.tid_hex.clone(), i);
+                self.spell.insert(hex::encode(e.pos), i);
+                self.spell.insert(e.app_id.clone(), i);
+                self.by_pos.insert(e.pos, i);
+                self.by_addr.insert(e.addr, i);
+            }
+        }
+        pub async fn shutdown(&self) {
+            for n in &self.nodes {
+                let _ = tokio::time::timeout(Duration::from_secs(600), n.mgr.stop()).await;
+                let _ = tokio::time::timeout(Duration::from_secs(600), n.transport.stop()).await;
+            }
+        }
+    }
+}
